@@ -82,7 +82,7 @@ class Graph:
     """Shared objects, rebuilt from stored material (so lazily initialised state is fresh). Only the objects the operations need are
     built (an RSA PEM import costs 50 ms of key checking)."""
 
-    ALL = ("oct1", "oct2", "oct16", "ec", "ec2", "ed", "rsa", "ecpub", "ks", "reg_jws", "reg_jwe")
+    ALL = ("oct1", "oct2", "oct16", "ec", "ec2", "ed", "rsa", "ecpub", "ks", "reg_jws", "reg_jwe", "ec_sig")
 
     def __init__(self, needs=None):
         from joserfc.jwk import OctKey, ECKey, OKPKey, RSAKey, KeySet
@@ -100,6 +100,9 @@ class Graph:
             self.ec = ECKey.import_key(m["pem"]["ec"])            # no dict yet: built lazily on first use
         if "ec2" in needs:
             self.ec2 = ECKey.import_key(m["jwk"]["ec2"])
+        if "ec_sig" in needs:
+            # from PEM with extra parameters: the JWK dict (incl. use / key_ops / kid) is only built on first use
+            self.ec_sig = ECKey.import_key(m["pem"]["ec"], {"use": "sig", "key_ops": ["sign", "verify"], "kid": "sig-key-1"})
         if "ed" in needs:
             self.ed = OKPKey.import_key(m["pem"]["ed"])
         if "rsa" in needs:
@@ -333,14 +336,58 @@ def op_encrypt_unregistered_header(G):
     return jwe.encrypt_compact({"alg": "A128KW", "enc": "A128GCM", "custom": "v"}, b"x", G.oct16)[:10]
 
 
+def op_encrypt_kw_foreign_header(G):
+    from joserfc import jwe
+    # "apu"/"p2c" belong to other algorithms: with A128KW they are unregistered names and must stay refused, whatever ran before
+    out = []
+    for extra in ({"apu": "QQ"}, {"p2c": 1000}, {"epk": {"kty": "oct"}}):
+        try:
+            jwe.encrypt_compact({"alg": "A128KW", "enc": "A128GCM", **extra}, b"x", G.oct16)
+            out.append("accepted")
+        except Exception as e:
+            out.append(type(e).__name__)
+    return out
+
+
+def op_decrypt_pbes2_default_registry(G):
+    from joserfc import jwe
+    # a non-recommended algorithm through the shared default registry: must stay refused
+    return jwe.decrypt_compact(material()["tok"]["kw"].replace(material()["tok"]["kw"].split(".")[0], rb.encode(b'{"alg":"PBES2-HS256+A128KW","enc":"A128GCM","p2s":"AAAAAAAAAAA","p2c":8}')), G.oct16).plaintext.decode()
+
+
+def op_sigkey_first_use_sign(G):
+    from joserfc import jws
+    return _ref_verify(jws.serialize_compact({"alg": "ES256"}, b"msg-sigkey", G.ec_sig), "ec", b"msg-sigkey")
+
+
+def op_sigkey_encrypt_refused(G):
+    from joserfc import jwe
+    # the key declares use=sig: encryption with it must be refused also while another thread uses the key for the first time
+    return jwe.encrypt_compact({"alg": "ECDH-ES", "enc": "A128GCM"}, b"x", G.ec_sig)[:8]
+
+
+def op_sigkey_keyset(G):
+    from joserfc.jwk import KeySet
+    ks = KeySet([G.ec_sig])
+    G.made_sets.append(ks)
+    return [k.kid for k in ks.keys]
+
+
+def op_sigkey_export(G):
+    d = G.ec_sig.as_dict(private=False)
+    return sorted(d.items())
+
+
 OPS = {f.__name__[3:]: f for f in [
+    op_encrypt_kw_foreign_header, op_decrypt_pbes2_default_registry, op_sigkey_first_use_sign, op_sigkey_encrypt_refused, op_sigkey_keyset, op_sigkey_export,
     op_read_kid, op_custom_registry_sign, op_sign_unregistered_header, op_custom_jwe_registry, op_encrypt_unregistered_header,
     op_sign_hs_k1, op_sign_hs_k2, op_verify_hs_k1, op_verify_hs_wrongkey, op_verify_hs_k2, op_sign_es, op_verify_es, op_verify_es_private_obj, op_sign_ed,
     op_verify_rs, op_sign_json_two, op_keyset_new, op_keyset_sign_pick, op_keyset_verify_kid, op_shared_keyset_dict, op_shared_keyset_sign, op_thumbprint,
     op_ensure_kid, op_export_public, op_export_pem, op_encrypt_kw, op_decrypt_kw, op_decrypt_dir, op_encrypt_ecdh, op_decrypt_ecdh, op_jwt_roundtrip,
     op_verify_disallowed, op_verify_ed_allowed]}
 # shared, lazily initialised objects an operation touches: pairs sharing one get every single-preemption schedule even in the quick tier
-TOUCH = {"read_kid": {"ec", "ed"}, "sign_es": {"ec"}, "verify_es_private_obj": {"ec"}, "keyset_new": {"ec", "ed"}, "keyset_sign_pick": {"ec", "oct2"}, "thumbprint": {"ec", "ed", "oct1"},
+TOUCH = {"sigkey_first_use_sign": {"ec_sig"}, "sigkey_encrypt_refused": {"ec_sig"}, "sigkey_keyset": {"ec_sig"}, "sigkey_export": {"ec_sig"},
+         "encrypt_kw_foreign_header": {"A128GCM", "A128KW"}, "read_kid": {"ec", "ed"}, "sign_es": {"ec"}, "verify_es_private_obj": {"ec"}, "keyset_new": {"ec", "ed"}, "keyset_sign_pick": {"ec", "oct2"}, "thumbprint": {"ec", "ed", "oct1"},
          "ensure_kid": {"ec"}, "export_public": {"ec", "ed"}, "decrypt_ecdh": {"ec"}, "sign_ed": {"ed"}, "export_pem": {"ec"},
          "sign_hs_k1": {"HS256"}, "sign_hs_k2": {"HS256"}, "verify_hs_k1": {"HS256"}, "verify_hs_wrongkey": {"HS256"}, "verify_hs_k2": {"HS256"}, "jwt_roundtrip": {"HS256"},
          "shared_keyset_sign": {"ks"}, "shared_keyset_dict": {"ks"},
@@ -349,14 +396,15 @@ TOUCH = {"read_kid": {"ec", "ed"}, "sign_es": {"ec"}, "verify_es_private_obj": {
          "custom_jwe_registry": {"A128GCM", "A128KW"}, "custom_registry_sign": {"HS256"}, "sign_unregistered_header": {"HS256"}}
 CORE = ["sign_hs_k1", "sign_hs_k2", "verify_hs_k1", "verify_hs_wrongkey", "sign_es", "verify_es_private_obj", "keyset_new", "keyset_sign_pick",
         "keyset_verify_kid", "thumbprint", "ensure_kid", "export_public", "encrypt_kw", "decrypt_kw", "encrypt_ecdh", "jwt_roundtrip", "shared_keyset_sign",
-        "verify_disallowed", "verify_ed_allowed", "read_kid", "custom_registry_sign", "sign_unregistered_header"]
+        "verify_disallowed", "verify_ed_allowed", "read_kid", "custom_registry_sign", "sign_unregistered_header",
+        "encrypt_kw_foreign_header", "sigkey_first_use_sign", "sigkey_encrypt_refused", "sigkey_keyset", "sigkey_export"]
 
 
 def outcome(fn, G):
     try:
         with warnings.catch_warnings():
             warnings.simplefilter("ignore")
-            return ["ok", fn(G)]
+            return ["ok", json.loads(json.dumps(fn(G)))]
     except Exception as e:
         return ["err", type(e).__name__]
 
@@ -458,6 +506,14 @@ def post_state(G) -> list:
         for k in ks.keys:
             if k.kid is None:
                 bad.append("a key of a key set has no kid")
+    k = getattr(G, "ec_sig", None)
+    if k is not None:
+        try:
+            d = k.as_dict(private=False)
+            if d.get("kid") != "sig-key-1" or d.get("use") != "sig" or d.get("key_ops") != ["sign", "verify"] or d.get("kty") != "EC":
+                bad.append(f"parameters of ec_sig is {({m: d.get(m) for m in ('kid', 'use', 'key_ops', 'kty')})!r} afterwards")
+        except Exception as e:
+            bad.append(f"export of ec_sig raises {type(e).__name__}")
     for name in ("ec", "ed", "oct1", "oct2", "rsa", "ec2"):
         k = getattr(G, name, None)
         if k is None:
